@@ -94,6 +94,10 @@ def h_setpoint(sym):
     x = sym.B['xmode']
     if x == 'off':
         roll, pitch, yaw = F(sym, 'roll', 'pitch', 'yaw')
+    elif x == 'values':     # both mixed inputs solver-chosen from a pool of doubles (concrete after the fork: no FP query at all)
+        pool = [0.0, 1.0, -11.75, 3.25, 1e-40, 2.5e38, -3.0e38]
+        roll, pitch = pool[sym.choice('roll_sel', len(pool))], pool[sym.choice('pitch_sel', len(pool))]
+        yaw, = F(sym, 'yaw')
     elif x == 'roll':       # x-mode mixes roll and pitch in Float64: one of them symbolic at a time (pure FP query)
         roll, = F(sym, 'roll')
         pitch, yaw = 3.25, -7.5
@@ -428,6 +432,9 @@ def h_header(sym):
 
 _H = [
     Harness('send_setpoint[+]', h_setpoint, quick=dict(xmode='off'), goals=('sent', 'refused')),
+    Harness('send_setpoint[x,values]', h_setpoint, quick=dict(xmode='values'), goals=('sent', 'refused'), timeout=(300, 900),
+            note='x-mode with roll and pitch solver-chosen from a pool of doubles (zero, ordinary, subnormal-in-float32, near the float32 '
+                 'limit so that the mixed value overflows); yaw and thrust symbolic'),
     Harness('send_setpoint[x,roll]', h_setpoint, quick=dict(xmode='roll'), goals=('sent', 'refused'), timeout=(600, 1800), per_path=400.0),
     Harness('send_setpoint[x,pitch]', h_setpoint, quick=dict(xmode='pitch'), goals=('sent', 'refused'), timeout=(600, 1800), per_path=400.0),
     Harness('notify_setpoint_stop', h_notify_stop, goals=('sent', 'refused')),
